@@ -393,6 +393,161 @@ Section Weight.
 End Weight.
 
 (* ------------------------------------------------------------------ *)
+(* "forest" in terms of the citations themselves: when no token cites the same proof twice,
+   no proof is cited by two different tokens and the store is acyclic (content addressing),
+   every delegation is reached by at most one citation path                                  *)
+
+Lemma NoDup_flat_map {A B} (g : A -> list B) l :
+  NoDup l -> (forall x, In x l -> NoDup (g x)) ->
+  (forall x y z, In x l -> In y l -> In z (g x) -> In z (g y) -> x = y) ->
+  NoDup (flat_map g l).
+Proof.
+  induction l as [|a l IH]; intros ND Hg Hd; cbn [flat_map]; [constructor|].
+  inversion ND as [|? ? Ha NDl]; subst.
+  assert (NDr : NoDup (flat_map g l)).
+  { apply IH; [exact NDl | intros x Hx; apply Hg; right; exact Hx |].
+    intros x y z Hx Hy; apply Hd; right; assumption. }
+  assert (NDa : NoDup (g a)) by (apply Hg; left; reflexivity).
+  revert NDa. generalize (Hd a). generalize (g a). intros ga Hda.
+  induction ga as [|z ga IHg]; intros NDa; cbn [app]; [exact NDr|].
+  inversion NDa as [|? ? Hz NDg]; subst. constructor.
+  - intros Hin. apply in_app_or in Hin. destruct Hin as [Hin|Hin]; [contradiction|].
+    apply in_flat_map in Hin. destruct Hin as [y [Hy Hzy]].
+    assert (a = y) by (apply (Hda y z); [left; reflexivity | right; exact Hy | left; reflexivity | exact Hzy]).
+    subst y. contradiction.
+  - apply IHg; [|exact NDg]. intros y z' Ha' Hy Hz1 Hz2. apply (Hda y z'); auto. right. exact Hz1.
+Qed.
+
+Lemma NoDup_map_filter_map {A B} (key : B -> A) (F : A -> option B) l :
+  (forall a b, F a = Some b -> key b = a) -> NoDup l -> NoDup (map key (filter_map F l)).
+Proof.
+  intros HF. induction l as [|a l IH]; intros ND; cbn [filter_map map]; [constructor|].
+  inversion ND as [|? ? Ha NDl]; subst. destruct (F a) as [b|] eqn:E; [|apply IH; exact NDl].
+  cbn [map]. constructor; [|apply IH; exact NDl]. rewrite (HF a b E).
+  intros Hin. apply in_map_iff in Hin. destruct Hin as [b' [Hk Hb']].
+  apply filter_map_in in Hb'. destruct Hb' as [a' [Ha' E']]. rewrite (HF a' b' E') in Hk. subst a'. contradiction.
+Qed.
+
+Lemma NoDup_map_filter {A B} (key : B -> A) (f : B -> bool) l :
+  NoDup (map key l) -> NoDup (map key (filter f l)).
+Proof.
+  induction l as [|b l IH]; intros ND; cbn [filter map] in *; [constructor|].
+  inversion ND as [|? ? Hb NDl]; subst. destruct (f b); [|apply IH; exact NDl].
+  cbn [map]. constructor; [|apply IH; exact NDl].
+  intros Hin. apply Hb. apply in_map_iff in Hin. destruct Hin as [b' [Hk Hb']].
+  apply filter_In in Hb'. apply in_map_iff. exists b'. split; [exact Hk | apply Hb'].
+Qed.
+
+Lemma NoDup_map_inj_in {A B} (key : B -> A) l :
+  NoDup (map key l) -> forall x y, In x l -> In y l -> key x = key y -> x = y.
+Proof.
+  induction l as [|b l IH]; intros ND x y Hx Hy E; [destruct Hx|]. cbn [map] in ND.
+  inversion ND as [|? ? Hb NDl]; subst.
+  destruct Hx as [<-|Hx], Hy as [<-|Hy]; auto.
+  - exfalso. apply Hb. rewrite E. apply in_map. exact Hy.
+  - exfalso. apply Hb. rewrite <- E. apply in_map. exact Hx.
+Qed.
+
+Section CitedOnce.
+  Variable U : link -> option token.
+  Variable C : ctx.
+  Hypothesis Hres : forall l p, resolve_proof C l = Some p -> d_link p = l.
+  Variable rank : link -> nat.
+  Hypothesis Hacyclic : forall l t p, U l = Some t -> In p (t_prf t) -> (rank p < rank l)%nat.
+  (* no token lists the same proof twice *)
+  Hypothesis Hprf : forall l t, U l = Some t -> NoDup (t_prf t).
+  (* no proof is cited by two different tokens *)
+  Hypothesis Honce : forall l1 t1 l2 t2 p, U l1 = Some t1 -> U l2 = Some t2 ->
+    In p (t_prf t1) -> In p (t_prf t2) -> l1 = l2.
+
+  (* citation chains a -> ... -> x of length >= 0 *)
+  Inductive cstar (a : link) : link -> Prop :=
+  | cs_refl : cstar a a
+  | cs_step b t x : cstar a b -> U b = Some t -> In x (t_prf t) -> cstar a x.
+
+  Lemma cstar_rank a x : cstar a x -> (rank x <= rank a)%nat.
+  Proof. induction 1 as [|b t x _ IH T Hx]; [lia|]. pose proof (Hacyclic b t x T Hx). lia. Qed.
+
+  Lemma cstar_left a t p x : U a = Some t -> In p (t_prf t) -> cstar p x -> cstar a x.
+  Proof.
+    intros T Hp. induction 1 as [|b tb x _ IH Tb Hx].
+    - eapply cs_step; [apply cs_refl | exact T | exact Hp].
+    - eapply cs_step; [exact IH | exact Tb | exact Hx].
+  Qed.
+
+  (* two proofs of the same token have disjoint sets of descendants *)
+  Lemma cstar_tree a ta p1 p2 : U a = Some ta -> In p1 (t_prf ta) -> In p2 (t_prf ta) ->
+    forall x, cstar p1 x -> cstar p2 x -> p1 = p2.
+  Proof.
+    intros Ta H1 H2 x S1. induction S1 as [|b1 t1 x S1 IH T1 Hx]; intros S2.
+    - inversion S2 as [|b t ? S2' Tb Hb]; subst; [reflexivity|]. exfalso.
+      assert (b = a) by (eapply Honce; eauto). subst b.
+      pose proof (cstar_rank _ _ S2'). pose proof (Hacyclic a ta p2 Ta H2). lia.
+    - inversion S2 as [|b2 t2 ? S2' T2 Hx2]; subst.
+      + exfalso. assert (b1 = a) by (eapply Honce; eauto). subst b1.
+        pose proof (cstar_rank _ _ S1). pose proof (Hacyclic a ta p1 Ta H1). lia.
+      + assert (b2 = b1) by (eapply Honce; eauto). subst b2. apply IH. exact S2'.
+  Qed.
+
+  Lemma aligned_links d t p : tok U d = Some t -> In p (aligned U t (proofs_view U C d t)) ->
+    In (d_link p) (t_prf t).
+  Proof.
+    intros T Hp. unfold aligned in Hp. apply filter_In in Hp. eapply proofs_view_in; eauto. apply Hp.
+  Qed.
+
+  Lemma aligned_nodup d t : tok U d = Some t ->
+    NoDup (map d_link (aligned U t (proofs_view U C d t))).
+  Proof.
+    intros T. unfold aligned. apply NoDup_map_filter. unfold proofs_view.
+    apply NoDup_map_filter_map; [|eapply Hprf; exact T].
+    intros l p. destruct (visible d l); [destruct (U l)|]; intros E;
+      [inversion E; reflexivity | apply Hres; exact E | apply Hres; exact E].
+  Qed.
+
+  Lemma reach_cstar : forall n d x, In x (reach U C n d) ->
+    cstar (d_link d) x /\ (rank x < rank (d_link d))%nat.
+  Proof.
+    induction n as [|n IH]; intros d x Hx; cbn [reach] in Hx; [destruct Hx|].
+    destruct (tok U d) as [t|] eqn:T; [|destruct Hx].
+    apply in_flat_map in Hx. destruct Hx as [p [Hp Hx]].
+    pose proof (aligned_links d t p T Hp) as Hl.
+    pose proof (Hacyclic (d_link d) t (d_link p) T Hl) as R.
+    destruct Hx as [<-|Hx].
+    - split; [eapply cs_step; [apply cs_refl | exact T | exact Hl] | exact R].
+    - destruct (IH p x Hx) as [S R']. split; [eapply cstar_left; eauto | lia].
+  Qed.
+
+  Theorem cited_once_reach_nodup : forall n d, NoDup (reach U C n d).
+  Proof.
+    induction n as [|n IH]; intros d; cbn [reach]; [constructor|].
+    destruct (tok U d) as [t|] eqn:T; [|constructor].
+    pose proof (aligned_nodup d t T) as NDl.
+    set (ps := aligned U t (proofs_view U C d t)) in *.
+    apply NoDup_flat_map.
+    - eapply NoDup_map_inv. exact NDl.
+    - intros p Hp. constructor; [|apply IH].
+      intros Hin. apply reach_cstar in Hin. lia.
+    - intros p1 p2 z H1 H2 Z1 Z2.
+      apply (NoDup_map_inj_in d_link ps NDl p1 p2 H1 H2).
+      apply (cstar_tree (d_link d) t (d_link p1) (d_link p2) T
+               (aligned_links d t p1 T H1) (aligned_links d t p2 T H2) z).
+      + destruct Z1 as [<-|Z1]; [apply cs_refl | apply (reach_cstar n p1 z Z1)].
+      + destruct Z2 as [<-|Z2]; [apply cs_refl | apply (reach_cstar n p2 z Z2)].
+  Qed.
+
+  (* linear work for proof sets in which every delegation is cited at most once, carries
+     at most one capability and is issued by a did:key (or the authority) *)
+  Theorem cited_once_linear n ds inv (dom : list link) :
+    (forall l t, U l = Some t -> direct_iss C t = true) ->
+    (forall l t, U l = Some t -> (length (t_caps t) <= 1)%nat) ->
+    incl (reach U C (pred n) inv) dom ->
+    count_verifies (snd (access U C n ds inv)) <= N.of_nat (length dom) + 1.
+  Proof.
+    intros Hd H1 Hin. apply forest_linear; auto. apply cited_once_reach_nodup.
+  Qed.
+End CitedOnce.
+
+(* ------------------------------------------------------------------ *)
 (* 2. the exact cost of layered proof sets, generically                *)
 
 (* Layers L 0, L 1, ... of delegations: every delegation of layer k+1 cites exactly the
@@ -735,13 +890,20 @@ Proof. reflexivity. Qed.
 Fixpoint geo (w : N) (d : nat) : N :=
   match d with O => 1 | S d' => 1 + w * geo w d' end.
 
-Lemma geo_closed w d : (w - 1) * geo w d + 1 = w ^ N.of_nat (S d) \/ w = 0.
+Lemma geo_closed w d : 1 <= w -> (w - 1) * geo w d + 1 = w ^ N.of_nat (S d).
 Proof.
-  destruct (N.eq_dec w 0) as [->|NZ]; [right; reflexivity|left].
-  induction d as [|d IH].
+  intros Hw. induction d as [|d IH].
   - cbn [geo]. rewrite N.pow_1_r. lia.
   - cbn [geo]. replace (N.of_nat (S (S d))) with (N.succ (N.of_nat (S d))) by lia.
     rewrite N.pow_succ_r'. rewrite <- IH. nia.
+Qed.
+
+(* the closed form: (w^(d+1) - 1) / (w - 1) *)
+Lemma geo_div w d : 2 <= w -> geo w d = (w ^ N.of_nat (S d) - 1) / (w - 1).
+Proof.
+  intros Hw. rewrite <- (geo_closed w d) by lia.
+  rewrite N.add_sub, N.mul_comm.
+  symmetry. apply N.div_mul. lia.
 Qed.
 
 Lemma geo_ge_pow w d : w ^ N.of_nat d <= geo w d.
